@@ -195,7 +195,60 @@ fn uppercase(cu: u32) -> u32 {
 /// ASCII is left alone (so U+017F does not match 's', nor U+0131 'I').
 #[inline]
 fn legacy_canonicalize(cu: u32, upper: u32) -> u32 {
-    if cu >= 128 && upper < 128 { cu } else { upper }
+    if (cu >= 128 && upper < 128) || has_multichar_uppercase(cu) {
+        cu
+    } else {
+        upper
+    }
+}
+
+/// Code points whose full upper-casing (SpecialCasing.txt) is more than one code point.
+/// ES Canonicalize (without the u flag) leaves these unchanged, even where a *simple*
+/// uppercase mapping exists (e.g. U+1F80 -> U+1F88).
+const MULTICHAR_UPPERCASE: [(u32, u32); 27] = [
+    (0xDF, 0xDF),
+    (0x149, 0x149),
+    (0x1F0, 0x1F0),
+    (0x390, 0x390),
+    (0x3B0, 0x3B0),
+    (0x587, 0x587),
+    (0x1E96, 0x1E9A),
+    (0x1F50, 0x1F50),
+    (0x1F52, 0x1F52),
+    (0x1F54, 0x1F54),
+    (0x1F56, 0x1F56),
+    (0x1F80, 0x1FAF),
+    (0x1FB2, 0x1FB4),
+    (0x1FB6, 0x1FB7),
+    (0x1FBC, 0x1FBC),
+    (0x1FC2, 0x1FC4),
+    (0x1FC6, 0x1FC7),
+    (0x1FCC, 0x1FCC),
+    (0x1FD2, 0x1FD3),
+    (0x1FD6, 0x1FD7),
+    (0x1FE2, 0x1FE4),
+    (0x1FE6, 0x1FE7),
+    (0x1FF2, 0x1FF4),
+    (0x1FF6, 0x1FF7),
+    (0x1FFC, 0x1FFC),
+    (0xFB00, 0xFB06),
+    (0xFB13, 0xFB17),
+];
+
+#[inline]
+fn has_multichar_uppercase(cu: u32) -> bool {
+    (0xDF..=0xFB17).contains(&cu)
+        && MULTICHAR_UPPERCASE
+            .binary_search_by(|&(first, last)| {
+                if first > cu {
+                    Ordering::Greater
+                } else if last < cu {
+                    Ordering::Less
+                } else {
+                    Ordering::Equal
+                }
+            })
+            .is_ok()
 }
 
 // Add all folded characters in the given interval to the given code point set.
@@ -354,6 +407,37 @@ pub fn add_icase_code_points(mut input: CodePointSet) -> CodePointSet {
         unfold_interval(*iv, &mut input);
     }
     input
+}
+
+/// Close a set under the non-Unicode canonicalization (ES Canonicalize without u/v):
+/// the result contains x exactly when uppercase(x) == uppercase(a) for some member a.
+pub fn add_icase_code_points_legacy(input: CodePointSet) -> CodePointSet {
+    // All (code point, canonical form) pairs where the two differ.
+    let mut pairs = Vec::new();
+    for tr in TO_UPPERCASE.iter() {
+        for cp in tr.transformed_from().codepoints() {
+            let up = legacy_canonicalize(cp, tr.apply(cp));
+            if up != cp {
+                pairs.push((cp, up));
+            }
+        }
+    }
+    // Canonical forms of the members that are not their own canonical form.
+    let mut images = CodePointSet::default();
+    for &(cp, up) in &pairs {
+        if input.contains(cp) {
+            images.add_one(up);
+        }
+    }
+    let mut result = input.clone();
+    result.add_set(images.clone());
+    // Everything whose canonical form is (the canonical form of) a member.
+    for &(cp, up) in &pairs {
+        if input.contains(up) || images.contains(up) {
+            result.add_one(cp);
+        }
+    }
+    result
 }
 
 pub(crate) enum PropertyEscapeKind {
